@@ -125,3 +125,62 @@ def pieceOk (body : Re) (p : Text) : Bool :=
   altHasLit body p || (match p with | [c] => altHasCls body c | _ => false)
 
 end Spec
+
+namespace Spec
+open Py Model
+
+/-- END, started after the value of a tag line, stops at the end of *this* line although text
+    follows (its `\s*` parts could otherwise run on into the next line, as in `"` newline `/>`) -/
+def endStopsAt (endRe : Re) (trail rest : Text) : Bool :=
+  matchEndWith endRe (trail ++ '\n' :: rest) == some ('\n' :: rest)
+
+/-- one tag line of a text -/
+structure TagLineSpec where
+  pre : Text
+  blanks : Text
+  v : Text
+  trail : Text
+
+def TagLineSpec.text (tag : Text) (l : TagLineSpec) : Text := l.pre ++ tag ++ l.blanks ++ l.v ++ l.trail ++ ['\n']
+
+/-- the text made of the given tag lines, each ended by "\n" -/
+def linesText (tag : Text) : List TagLineSpec → Text
+  | [] => []
+  | l :: ls => l.text tag ++ linesText tag ls
+
+/-- every line is well formed *in its place*: the hypotheses of the one-line theorem, read with
+    the rest of the text following the line -/
+def WFLines (endRe : Re) (tag : Text) : List TagLineSpec → Bool
+  | [] => true
+  | l :: ls =>
+    WFShape tag l.pre l.blanks l.v l.trail ['\n'] &&
+    noEarlierTag tag l.pre (tag ++ l.blanks ++ l.v ++ l.trail ++ '\n' :: linesText tag ls) &&
+    endStopsAt endRe l.trail (linesText tag ls) &&
+    noEndSuffixBefore endRe l.v (l.trail ++ '\n' :: linesText tag ls) &&
+    isStripped l.v && frameFree l.pre l.v &&
+    WFLines endRe tag ls
+
+end Spec
+
+namespace Spec
+open Py Model
+
+/-- can the expression match the empty text? -/
+def nullable : Re → Bool
+  | .eps => true
+  | .chr _ => false
+  | .cls _ _ => false
+  | .cat a b => nullable a && nullable b
+  | .alt a b => nullable a || nullable b
+  | .star _ => true
+
+/-- can a non-empty match of the expression begin with `c`? -/
+def canStart : Re → Char → Bool
+  | .eps, _ => false
+  | .chr d, c => c == d
+  | .cls neg rs, c => Re.clsMatch neg rs c
+  | .cat a b, c => canStart a c || (nullable a && canStart b c)
+  | .alt a b, c => canStart a c || canStart b c
+  | .star a, c => canStart a c
+
+end Spec
